@@ -1446,6 +1446,9 @@ static Node *create_lvar_init(Initializer *init, Type *ty, InitDesg *desg, Token
 //   x[1][0] = 8;
 //   x[1][1] = 9;
 static Node *lvar_initializer(Token **rest, Token *tok, Obj *var) {
+  if ((var->ty->kind == TY_STRUCT || var->ty->kind == TY_UNION) && var->ty->size < 0)
+    error_tok(tok, "initializer for a variable of incomplete type");
+
   Initializer *init = initializer(rest, tok, var->ty, &var->ty);
   InitDesg desg = {NULL, 0, NULL, var};
 
@@ -1570,6 +1573,9 @@ write_gvar_data(Relocation *cur, Initializer *init, Type *ty, char *buf, int off
 // objects to a flat byte array. It is a compile error if an
 // initializer list contains a non-constant expression.
 static void gvar_initializer(Token **rest, Token *tok, Obj *var) {
+  if ((var->ty->kind == TY_STRUCT || var->ty->kind == TY_UNION) && var->ty->size < 0)
+    error_tok(tok, "initializer for a variable of incomplete type");
+
   Initializer *init = initializer(rest, tok, var->ty, &var->ty);
 
   Relocation head = {};
